@@ -195,6 +195,7 @@ def inspect_frame(frame: FrameType) -> FrameDetails:
         else:
             handler_depth = 0
 
+        stacktop_copy = None
         try:
             # Unavoidable hazard (unless we write a C extension): If
             # this frame is currently executing on another thread, and
@@ -253,6 +254,12 @@ def inspect_frame(frame: FrameType) -> FrameDetails:
                 raise InconsistentSnapshot
             if not (frame.f_lasti == lasti_before):
                 raise InconsistentSnapshot
+            # (f_lasti was read first and stacktop later. A frame that
+            # is executing a loop may have been somewhere else when the
+            # latter was read and be back where it was by now; what that
+            # field says at this very moment is what counts.)
+            if not (iframe_raw.stacktop == stacktop_copy):
+                raise InconsistentSnapshot
 
             # Extract object pointers for it. This is by far the most
             # delicate part of our routine if the frame is executing
@@ -280,6 +287,8 @@ def inspect_frame(frame: FrameType) -> FrameDetails:
                         raise InconsistentSnapshot
                     if not (frame.f_lasti == lasti_before):
                         raise InconsistentSnapshot
+                    if not (iframe_raw.stacktop == stacktop_copy):
+                        raise InconsistentSnapshot
 
                     try:
                         # Read the PyObject* from memory and take a reference to it,
@@ -297,9 +306,15 @@ def inspect_frame(frame: FrameType) -> FrameDetails:
                 raise InconsistentSnapshot
             if not (frame.f_lasti == lasti_before):
                 raise InconsistentSnapshot
+            if not (iframe_raw.stacktop == stacktop_copy):
+                raise InconsistentSnapshot
 
         except AssertionError:
-            if frame.f_lasti == lasti_before and f_frame_field.value == iframe_addr:
+            if (
+                frame.f_lasti == lasti_before
+                and f_frame_field.value == iframe_addr
+                and iframe_raw.stacktop == stacktop_copy
+            ):
                 raise
             # otherwise this was probably a concurrent modification, try again
             continue
